@@ -265,7 +265,17 @@ func (r *c14Run) body(t int) (out string) {
 		p := &com.Packet{ID: c2.VerifC14RvResult, Job: uint16(th.id), Device: c2.VerifC14Device(s)}
 		if th.ef {
 			p.Flags |= com.FlagError
-			p.WriteString("boom")
+			// the error text a client sends, or what a broken / hostile client sends instead: the Job
+			// finishes all the same (the model does not look at the body)
+			switch (th.id + t) % 5 {
+			case 0, 1:
+				p.WriteString("boom")
+			case 2: // no body at all
+			case 3: // a string header announcing more than follows
+				p.Write([]byte{1, 9, 'x', 'y'})
+			case 4: // not a string
+				p.Write([]byte{0xFF, 0xFF, 3})
+			}
 		}
 		r.pkTag[p] = th.tag
 		if c2.VerifC14Handle(s, p) {
